@@ -431,7 +431,10 @@ class Unit:
             if x["level"] != "error":
                 continue
             ef, el = x["file"], x["line"]
-            inrange = [f for f in self.functions if ef == f.file and f.line <= el <= f.end_line]
+            # an instantiation is judged by what the compiler says about THAT instantiation (invalid declaration, or a
+            # body that contains error-recovery expressions); the line-range rule is for code that is not instantiated
+            inrange = [f for f in self.functions if ef == f.file and f.line <= el <= f.end_line and
+                       not (f.d.get("is_instantiation") and "recovery" in f.d)]
             named = None
             for n in x.get("notes", []):
                 m = _re.search(r"in instantiation of (?:function template specialization|member function) '(.*)' requested here", str(n))
@@ -455,6 +458,9 @@ class Unit:
                 if not hit and m2 and any(f.d.get("targs") and f.name == m2.group(2) for f in inrange):
                     continue        # the failing specialisation is a sibling that the extractor did not emit
             for f in (hit or inrange):
+                f.invalid = True
+        for f in self.functions:
+            if f.d.get("recovery"):
                 f.invalid = True
         self.rec_by_id = {r.id: r for r in self.records}
 
